@@ -167,14 +167,17 @@ fn c15_transforms() {
         }
         cases += 1;
         if ifft_with_options(PolynomialValues::new(want.clone()), None, Some(&table)).coeffs != coeffs { bad.push(format!("ifft with root table differs at size {n}")); }
-        // coset variants and LDE
-        let shift = F::coset_shift();
+        // coset variants and LDE: the canonical shift, shifts inside the subgroup, and an arbitrary one
         let p = PolynomialCoeffs::new(coeffs.clone());
-        let cv = p.coset_fft(shift);
         let g = F::primitive_root_of_unity(lg);
-        cases += 3;
-        if (0..n).any(|i| cv.values[i] != p.eval(shift * g.exp_u64(i as u64))) { bad.push(format!("coset_fft != evaluation on the coset at size {n}")); }
-        if cv.clone().coset_ifft(shift).coeffs != coeffs { bad.push(format!("coset_ifft(coset_fft(p)) != p at size {n}")); }
+        for shift in [F::coset_shift(), g, g.exp_u64(3), g.exp_u64((n as u64).saturating_sub(1)), F::ONE, F::from_canonical_u64(12345)] {
+            let cv = p.coset_fft(shift);
+            cases += 2;
+            if (0..n).any(|i| cv.values[i] != p.eval(shift * g.exp_u64(i as u64))) { bad.push(format!("coset_fft != evaluation on the coset at size {n} for shift {}", shift.to_canonical_u64())); }
+            let truth = PolynomialValues::new((0..n).map(|i| p.eval(shift * g.exp_u64(i as u64))).collect());
+            if truth.coset_ifft(shift).coeffs != coeffs { bad.push(format!("coset_ifft of the true coset evaluations != p at size {n} for shift {}", shift.to_canonical_u64())); }
+        }
+        cases += 1;
         if n >= 2 { let l = p.lde(1); if l.coeffs[..n] != coeffs[..] || l.coeffs[n..].iter().any(|x| x.is_nonzero()) { bad.push(format!("lde(1) is not zero-padding at size {n}")); } }
     }
     finish("c15_transforms", cases, bad);
